@@ -5,7 +5,7 @@ From Coq Require Import String List NArith ZArith Bool Permutation.
 Local Open Scope string_scope.
 Local Open Scope N_scope.
 Local Open Scope list_scope.
-From Sylt Require Import Syntax.Resolved Dep.Deps Dep.Topo Dep.TopoProofs Dep.DepProofs Dep.DepsComplete Gen.GenResolve.
+From Sylt Require Import Syntax.Resolved Dep.Deps Dep.Topo Dep.TopoProofs Dep.DepProofs Dep.DepsComplete Dep.InitSem Dep.InitSemProofs Dep.InitOrder Gen.GenResolve.
 Import ListNotations.
 
 Definition tgt := gen_assign_target_deps.
@@ -73,6 +73,45 @@ Theorem C11_order_accept_iso : forall (A B : Type) (key_of : A -> N) (key_of' : 
   ((exists l, order t = OOk l) <-> (exists l, order t' = OOk l)).
 Proof. exact @order_accept_iso. Qed.
 
+(* INITIALISED BEFORE USE.
+   (1) order_respects_uses: when assignment targets count as dependencies (tgt = true: the code after fix
+       266f6e2), in the computed order every global that a definition reads, calls or assigns AT ANY DEPTH
+       (closure bodies included) is defined by an EARLIER statement -- or is the variable of a function
+       definition inside that statement (its own name: a function may call itself; nested local functions). *)
+Theorem C11_order_respects_uses : forall ss l,
+  tgt = true -> NoDup (dvars ss) -> initialization_order tgt ss = OOk l ->
+  forall l1 s l2 d, l = l1 ++ s :: l2 -> In d (uses_s s) -> In d (dvars ss) ->
+  (exists s', In s' l1 /\ defined_var s' = Some d) \/ In d (fdefs_s s).
+Proof. exact (order_respects_uses_counted tgt). Qed.
+
+(* (2) init_before_use: in the abstract semantics of initialisation Dep/InitSem.v (global reads and
+       assignments, closures, application, let, pairs, conditionals; reading or assigning an uninitialised
+       global is the outcome RUninit), running the definitions in ANY order with the property of (1) never
+       reads or assigns an uninitialised global -- also not through a call of a function value obtained from
+       another global, an argument, a returned closure, a component of a pair, or a global assigned during
+       initialisation.  Dependencies need no closure under calls: a function value can only exist once the
+       definition whose text contains its body has run, and that definition comes after everything the body
+       mentions.  (The calculus abstracts Sylt; the link between `uses` there and `uses_s` here is by
+       construction of the two definitions, not a theorem.) *)
+Theorem C11_init_before_use : forall fuel defs s,
+  store_ok s ->
+  (forall l1 v e l2 g, defs = l1 ++ (v, e) :: l2 -> In g (uses e) ->
+     inited s g \/ In g (map fst l1) \/ (g = v /\ is_lam e = true)) ->
+  forall g, run fuel s defs <> RUninit g.
+Proof. exact init_before_use. Qed.
+
+Theorem C11_init_safe : forall fuel defs s,
+  store_ok s -> ordered (inited s) defs -> forall g, run fuel s defs <> RUninit g.
+Proof. exact init_safe. Qed.
+
+(* non-vacuity: a function reaches its caller through a pair stored in a global; in dependency order the
+   run completes, with the caller first it reads the uninitialised global 2 *)
+Example C11_init_example :
+  run_kind (run 10 (fun _ => None) ex_defs) = Some None
+  /\ run_kind (run 10 (fun _ => None) ex_bad) = Some (Some 2)
+  /\ ordered (inited (fun _ => None)) ex_defs.
+Proof. exact init_example. Qed.
+
 (* types before values: after the types-first sort no value statement precedes a blob/enum *)
 Theorem C11_types_first : forall ss l1 s l2,
   types_first ss = l1 ++ s :: l2 -> is_type_stmt s = true -> forall x, In x l1 -> is_type_stmt x = true.
@@ -111,4 +150,7 @@ Print Assumptions C11_topo_complete.
 Print Assumptions C11_order_accept_perm.
 Print Assumptions C11_init_order_perm.
 Print Assumptions C11_order_accept_iso.
+Print Assumptions C11_order_respects_uses.
+Print Assumptions C11_init_before_use.
+Print Assumptions C11_init_safe.
 Print Assumptions C11_types_first.
